@@ -94,6 +94,7 @@ R.cls(
         "nevals": "int",  # ghost: number of fitness evaluations performed on this individual
     },
     file=IND,
+    owned=("fitness_store",),
 )
 R.cls("Genotype", fields={})
 R.cls("Representation", fields={})
@@ -211,10 +212,7 @@ EVAL_ENS = {
     "nothing_to_do": "implies(forall(0, len(individuals), lambda k: old(problem in individuals[k].fitness_store)), self.count == old(self.count))",
     "single_new": "implies(len(individuals) == 1 and not old(problem in individuals[0].fitness_store), self.count == old(self.count) + 1)",
 }
-EVAL_REQ = {
-    "distinct_stores": "forall(0, len(individuals), lambda a: forall(0, len(individuals), lambda b: "
-    "implies(not same(individuals[a], individuals[b]), not same(individuals[a].fitness_store, individuals[b].fitness_store))))",
-}
+EVAL_REQ = {}
 R.contract(
     "Evaluator.evaluate_async",
     params=dict(self="Evaluator", problem="Problem", individuals="list[Individual]"),
